@@ -103,8 +103,10 @@ static void buildSpace(bool thorough)
     { Item n; n.name = "U+20000"; n.s = WC(0x20000); g_names.push_back(n); }
 
     g_encs.push_back("UTF-8"); g_encs.push_back("UTF-16"); g_encs.push_back("ISO-8859-1"); g_encs.push_back("US-ASCII");
-    g_encs.push_back("windows-1252");
-    if (thorough) g_encs.push_back("Shift_JIS");
+    g_encs.push_back("windows-1252");   // reached only through the ICU transcoder of Xerces
+    // Shift_JIS was tried and dropped: the ICU converter behind that name (ibm-943) swaps 0x1A/0x1C/0x7F and assigns the
+    // unassigned lead bytes differently from the iconv/libxml2 decoder, so the decoding side of the oracle is not sound for it.
+    (void)thorough;
 }
 
 struct Case
@@ -189,12 +191,6 @@ static Tri encodable(const std::string& enc, unsigned c)
         if (c >= 0x80 && c < 0xA0) return MAYBE;     // converter tables differ on the five unassigned bytes
         for (int i = 0; i < 32; ++i) if (CP1252_HI[i] == c) return YES;
         return NO;
-    }
-    if (enc == "Shift_JIS")
-    {
-        if (c == 0x3042 || c == 0x436) return YES;   // hiragana A, cyrillic zhe: JIS X 0208
-        if (c == 0xE9 || c == 0xFF || c == 0x100 || c == 0x7FF || c == 0x800 || c >= 0xFFFD) return NO;
-        return MAYBE;
     }
     return MAYBE;
 }
@@ -297,7 +293,7 @@ static int XMLCALL exUnknownEnc(void*, const XML_Char* name, XML_Encoding* info)
     return XML_STATUS_OK;
 }
 
-static bool expatKnows(const std::string& enc) { return enc != "Shift_JIS"; }
+static bool expatKnows(const std::string&) { return true; }   // UTF-8, UTF-16, ISO-8859-1, US-ASCII natively; windows-1252 through exUnknownEnc
 
 static Parsed parseExpat(const std::string& bytes)
 {
@@ -506,7 +502,13 @@ protected:
         bytes.append(b, n);
 #ifdef C04_CORRUPT_EDGE
         // sensitivity demo (scratch build only): damage the last byte delivered before a buffer edge
-        if (n >= 400 && bytes.size() >= 1) bytes[bytes.size() - 1] ^= 0x01;
+        // (only when that byte belongs to the item, not to the 'x' padding, so that the damage depends on the offset)
+        if (n >= 400 && bytes.size() >= 2)
+        {
+            const size_t z = bytes.size();
+            const bool padding = bytes[z - 1] == 'x' || (bytes[z - 1] == 0 && bytes[z - 2] == 'x');
+            if (!padding) bytes[z - 1] ^= 0x01;
+        }
 #endif
         chunkEnds.push_back(bytes.size());
     }
@@ -819,7 +821,14 @@ static void runCase(const Case& c, Out& out, bool wantSample)
         {
             // shrink a pair to the single item that fails the same way on its own (same place, same serializer)
             std::string label = labelOf(c);
+            bool renamed = false;
             if (c.i2 >= 0)
+            {
+                // the two items together may spell another single item (']' ']' = ']]', loneHi loneLo = U+10000 ...)
+                const WS both = contentOf(c);
+                for (size_t k2 = 0; k2 < g_nBase && !renamed; ++k2) if (g_items[k2].s == both) { label = g_items[k2].name; renamed = true; }
+            }
+            if (c.i2 >= 0 && !renamed)
             {
                 Case a = c; a.i2 = -1;
                 Case b = c; b.i1 = c.i2; b.i2 = -1;
